@@ -315,3 +315,6 @@ def run_case(cfg):
       "sample": {"cfg": cfg, "alphabet_size": int(x.size), "rounded_up": up, "rounded_down": down,
                  "clipped": clipped, "x_head": x[:4].tolist(), "y_head": y[:4].tolist()},
   }
+
+# (appended: sub-lattices added after the seeded waves; kept out of the original RULE text for readability)
+RULE = RULE + '; plus: use_stochastic_rounding=True in the inference phase; mutation histories on one object (symmetric flips, layer hook, before / after a first call) judged against a fresh object; thorough: complete float32 sweeps'
